@@ -11,6 +11,10 @@ package errutil
 //@ method (*withPrefix).Unwrap
 //@   props C07 C10 C14
 //@   ensures result == self.cause
+//@ method (*withPrefix).SafeFormatError
+//@   props C09
+//@   requires p != nil
+//@   ensures result == self.cause
 
 //@ type withNewMessage invariant self.cause != nil
 //@ method (*withNewMessage).Cause
@@ -19,6 +23,10 @@ package errutil
 //@ method (*withNewMessage).Unwrap
 //@   props C07 C10 C14
 //@   ensures result == self.cause
+//@ method (*withNewMessage).SafeFormatError
+//@   props C09
+//@   requires p != nil
+//@   ensures result == nil
 
 //@ method (*leafError).Error
 //@   props C10
